@@ -79,3 +79,13 @@ for m, q, f in ctx.repo.functions():
         out['%s.%s' % (m.name, q)] = d
 json.dump(out, open(callsigs.GUARDNAMES_REF, 'w'), indent=0, sort_keys=True)
 print(sum(len(v) for v in out.values()), 'name-guarded blocks in', len(out), 'functions')
+# fixed scratch sizes reference
+out = {}
+for m, q, f in ctx.repo.functions():
+    if m.name in ('cencoding', 'speedups'):
+        continue
+    d = callsigs.scratch_sizes(f)
+    if d:
+        out['%s.%s' % (m.name, q)] = d
+json.dump(out, open(callsigs.SCRATCH_REF, 'w'), indent=0, sort_keys=True)
+print(sum(len(v) for v in out.values()), 'fixed-size scratch buffers in', len(out), 'functions')
